@@ -52,7 +52,7 @@ pub fn scenario<C: Coll>(c: &mut Ctx, idx: u64, rng: &mut Rng, name: &str) {
     d.set("state", Json::s(spec.describe()));
     c.describe(d);
     let sigbase = [crate::ctx::prop_salt(name), recipe as u64];
-    let mut ev = |c: &mut Ctx, kind: u64, class: u8| {
+    let ev = |c: &mut Ctx, kind: u64, class: u8| {
         c.evaluations += 1;
         c.sig_parts(&[sigbase[0], sigbase[1], kind, class as u64]);
     };
